@@ -21,20 +21,21 @@ CkSetups(k) ==
   \cup { <<LoadOp(<<k>>), CNewOp, CSetKeyOp(a, 0)>> : a \in {"none", MatchAlg(k)} }
 CkWithCb(k) == { s \o <<CSetCbOp(p)>> : s \in CkSetups(k), p \in Progs(k) } \cup CkSetups(k)
 
-HdrAlgsFor(k) == {"none", "None", "NONE", MatchAlg(k), NONE}
+HdrAlgsFor(k) == {"none", "None", "NONE", MatchAlg(k), NONE, "#null", "#int", "#bool", "#arr", "#obj", "#real", "none ", ""}
 SigsFor(k, h) == { EmptySig, Sig("valid", h, k), [Sig("garbage", "HS256", DummyKey) EXCEPT !.cls = "garbage"] }
 Shapes == {"3seg", "2seg", "4seg", "4segempty"}
 TokFor(k, h, sg, sh) == [Tok(h, <<>>, <<>>, sg) EXCEPT !.shape = sh]
 
-CheckerScripts ==
-  UNION { { s \o <<VerifyOp(TokFor(k, h, sg, sh))>> :
-              s \in CkWithCb(k), h \in HdrAlgsFor(k), sg \in UNION {SigsFor(k, h2) : h2 \in HdrAlgsFor(k)}, sh \in Shapes }
+\* shapes other than 3 segments only with the plain spellings (the shape dimension is independent of the spelling)
+ShapesFor(h) == IF h \in {"none", NONE} \/ h \in RealAlgs THEN Shapes ELSE {"3seg"}
+CheckerScriptsOK ==
+  UNION { UNION { { s \o <<VerifyOp(TokFor(k, h, sg, sh))>> : s \in CkWithCb(k), sg \in SigsFor(k, h), sh \in ShapesFor(h) }
+                  : h \in HdrAlgsFor(k) }
           : k \in KeyVariants }
-CheckerScriptsOK == { s \in CheckerScripts :
-                        LET t == s[Len(s)].tok IN t.sig.cls = "empty" \/ t.sig.cls = "garbage" \/ t.sig.alg = t.hdr.alg }
 NoKeyScripts ==
   { <<CNewOp, VerifyOp(TokFor(DummyKey, h, sg, sh))>> :
-      h \in {"none", "None", "NONE", "HS256", NONE}, sg \in {EmptySig, Sig("valid", "HS256", DummyKey)}, sh \in Shapes }
+      h \in {"none", "None", "NONE", "HS256", NONE, "#null", "#int", "#bool", "#arr", "#obj", "#real", "none ", "", "nonee", "non"},
+      sg \in {EmptySig, Sig("valid", "HS256", DummyKey)}, sh \in Shapes }
   \cup { <<CNewOp, CSetKeyOp("HS256", -1), VerifyOp(TokFor(DummyKey, "none", EmptySig, "3seg"))>> }
 
 \* builder
